@@ -69,6 +69,29 @@ def match(p, n, env):
             return env[name][0] == d
         env[name] = (d, n)
         return True
+    if isinstance(p, ast.arg) and p.arg.startswith(_MV):
+        # a parameter metavariable binds the parameter's name (as a Name, so that uses in the body agree)
+        if not isinstance(n, ast.arg):
+            return False
+        name = p.arg[len(_MV):]
+        if name == "_":
+            return True
+        nm = ast.Name(id=n.arg, ctx=ast.Load())
+        d = _dump(nm)
+        if name in env:
+            return env[name][0] == d
+        env[name] = (d, nm)
+        return True
+    if isinstance(p, ast.ExceptHandler) and isinstance(n, ast.ExceptHandler) and isinstance(p.name, str) and p.name.startswith(_MV):
+        name = p.name[len(_MV):]
+        if n.name is None:
+            return False
+        nm = ast.Name(id=n.name, ctx=ast.Load())
+        if name != "_":
+            if name in env and env[name][0] != _dump(nm):
+                return False
+            env[name] = (_dump(nm), nm)
+        return match(p.type, n.type, env) and match(p.body, n.body, env)
     if isinstance(p, ast.AST):
         if type(p) is not type(n):
             return False
